@@ -159,8 +159,9 @@ def run(ctx):
                  and i["strat"]["rf"] == 1)
     bad1 = dict(probe, byKey=[sorted(set(x) | {h for h in probe["ring"]}) for x in probe["byKey"]])
     bad2 = dict(probe, ring=probe["ring"][1:] + probe["ring"][:1])
+    verdict = P.evaluate(probe)            # (non-empty only when the driver under test is broken)
     for b in (bad1, bad2):
-        if not P.evaluate(b):
+        if P.evaluate(b) == verdict:
             raise tlc.MachineryError("binding self-test failed: corrupted instance not detected: %r" % (b,))
         selftest["corrupted_rejected"] += 1
     ctx.note("binding_selftest", selftest)
